@@ -1,7 +1,7 @@
 (* C06 - str / literals round-trip, VALUE HALF (booleans, strings, numbers, nested arrays).
    Theorems only; proofs live in Num/NumProofs.v, Num/NumFloat.v, Num/NumDig.v. The model (Num/NumDefs.v) is
    tied to d_string.h, d_scalar.cpp, d_array.h, d_boolean.h, tokenizer.hpp and sqf_parser.cpp by the
-   correspondence run of checks/C06_values.py. To be merged into coq/Properties_C06.v.
+   correspondence run of checks/C06_values.py. The code half is in coq/Properties_C06_code.v.
    Real-number statements use Flocq's `round` (generic rounding of a real to a format); the assumption
    listings under them name what Coq's classical real numbers rest on. *)
 From Coq Require Import ZArith List Reals SpecFloat.
